@@ -109,6 +109,9 @@ def run(tier, seed):
                 d["vkind"] = ("float", "np", "tensor0d", "ndarray0d")[n % 4]      # what the user's metric returns
             if d["t"] == "early" and d["crit"] == "variance":
                 d["deprecated"] = (n % 3 == 0)
+        # the rule does not depend on the unit of the monitored quantity: a third of the replays use values of
+        # magnitude 1e-9 / 1e-13 / 1e12 or the negated sequence (powers of two: no rounding)
+        cfg["scale"] = (1.0, 2.0 ** -30, 1.0, -2.0 ** -43, 1.0, 2.0 ** 40, 1.0, -1.0, 1.0)[n % 9]
         return dict(time_flag=False, k=0)
 
     def nontriv(beh):
@@ -141,6 +144,8 @@ def run(tier, seed):
         cfg = dict(type="positive", startEp=rng.randint(0, 2), epochs=L, N=2, posB=rng.randint(1, 2), negB=0,
                    data=[1, 2], bases=[], sched=False, entryStop=False, again="no", perms="all", cbs=cbs, vals=vals,
                    vars=[(v * v) % 7 for v in vals])
+        if rng.random() < 0.4:
+            cfg["scale"] = rng.choice([2.0 ** -30, -2.0 ** -43, 2.0 ** 40, -1.0, 2.0 ** -60])
         with warnings.catch_warnings():
             warnings.simplefilter("ignore")
             real = trainrun.real_run(cfg, seed=rng.randrange(10 ** 6), k=0)
